@@ -2,6 +2,8 @@
 """diagnostic: run ONE shard of a property module in the build of the current tree and print its counters
 usage: tools/shard.py C06 "('reassign', 0, 3)" """
 import sys, os, subprocess
+if sys.executable != "/venv/bin/python":
+    os.execv("/venv/bin/python", ["/venv/bin/python"] + sys.argv)
 sys.path.insert(0, os.path.dirname(os.path.dirname(os.path.abspath(__file__))))
 from vt import build
 root = build.ensure()
